@@ -7,8 +7,10 @@ import math
 
 import numpy as np
 
+import z3
+
 from .arr import SArr, lift, sarr, _strip, is_sym
-from .core import SR, Unsupported
+from .core import SR, Unsupported, Engine
 
 
 def _arr(x):
@@ -19,6 +21,11 @@ class FRot:
     """scipy.spatial.transform.Rotation.from_quat(q).as_matrix(): scalar-last, normalising"""
 
     def __init__(self, q):
+        # Rotation(q) is the documented-as-private but working spelling of from_quat(q) that the package uses
+        if q is not None and not isinstance(q, np.ndarray):
+            q = np.asarray(_strip(q), dtype=object)
+        if q is not None and q.shape != (4,) and not (q.ndim == 2 and q.shape[1] == 4):
+            raise ValueError("Expected `quat` to have shape (4,) or (N, 4), got {}".format(q.shape))
         self.q = q
 
     @classmethod
@@ -41,9 +48,84 @@ class FRot:
         return sarr(self._one(self.q))
 
     def __len__(self):
+        if self.q is None:
+            return len(self.M)
         if self.q.ndim == 1:
             raise TypeError("Single rotation has no len().")
         return len(self.q)
+
+    # ---- rotations given by matrices (scipy: from_matrix(...).magnitude() / .as_quat())
+    M = None
+
+    @classmethod
+    def from_matrix(cls, M):
+        """a stack (n, 3, 3) or one (3, 3) of rotation matrices, taken as they are (scipy orthogonalises by SVD: the identity on a rotation)"""
+        M = np.asarray(_strip(M), dtype=object)
+        if M.shape[-2:] != (3, 3) or M.ndim not in (2, 3):
+            raise ValueError("Expected `matrix` to have shape (3, 3) or (N, 3, 3), got {}".format(M.shape))
+        r = cls(None)
+        r.M = M
+        return r
+
+    def magnitude(self):
+        """rotation angle: arccos((trace - 1) / 2) (for a rotation matrix; a monotone decreasing function of the trace)"""
+        if self.M is None:
+            raise Unsupported("Rotation model: magnitude() of a rotation given by a quaternion")
+        def one(m):
+            tr = m[0, 0] + m[1, 1] + m[2, 2]
+            tr = tr if isinstance(tr, SR) else SR(tr)
+            # the angle as an uninterpreted, strictly decreasing function of the trace (arccos((tr-1)/2) on [-1, 3]); the instances of one
+            # path are related pairwise -- no range side conditions, which would need bounds of quadratic forms on the unit sphere
+            e = Engine.cur
+            f = z3.Function("rotation_angle_of_trace", z3.RealSort(), z3.RealSort())
+            r = f(tr.z)
+            e.axiom(z3.And(r >= 0, r <= 4))
+            reg = e.__dict__.setdefault("_angle_args", [])
+            if e.__dict__.get("_angle_path") is not e.pc:          # a new path: the registry belongs to the previous one
+                reg.clear()
+                e.__dict__["_angle_path"] = e.pc
+            for (ot, orr) in reg:
+                e.axiom(z3.And(z3.Implies(ot < tr.z, orr > r), z3.Implies(ot > tr.z, orr < r), z3.Implies(ot == tr.z, orr == r)))
+            reg.append((tr.z, r))
+            return SR(r)
+        if self.M.ndim == 3:
+            return sarr([one(m) for m in self.M])
+        return one(self.M)
+
+    def as_quat(self, canonical=False, **k):
+        if k or canonical:
+            raise Unsupported("Rotation model: as_quat with options")
+        if self.M is None:
+            # scipy keeps the sign it was given and normalises
+            def norm(q):
+                n2 = sum((c * c for c in q), 0)
+                if isinstance(n2, SR):
+                    n = n2.sqrt()
+                else:
+                    import math
+                    n = math.sqrt(float(n2))
+                return [c / n for c in q]
+            if self.q.ndim == 2:
+                return sarr([norm(list(r)) for r in self.q])
+            return sarr(norm(list(self.q)))
+        # matrix -> quaternion: one of the two unit quaternions of the rotation; scipy's algorithm makes the component of largest
+        # magnitude positive (ties: either).  Fresh variables x with M(x) == M, |x| = 1 and that sign rule.
+        e = Engine.cur
+        def one(m):
+            x = [e.fresh("quat") for _ in range(4)]
+            for v in x:
+                e.declare_sign(v, "?")
+            mx = rotation_matrix_terms_unit(x)
+            for i in range(3):
+                for j in range(3):
+                    mij = m[i, j]
+                    e.axiom(mx[i][j] == (mij.z if isinstance(mij, SR) else z3.RealVal(str(mij))))
+            e.axiom(sum((v * v for v in x), 0) == 1)
+            e.axiom(z3.Or([z3.And(x[k_] > 0, *[x[k_] * x[k_] >= x[j] * x[j] for j in range(4) if j != k_]) for k_ in range(4)]))
+            return [SR(v) for v in x]
+        if self.M.ndim == 3:
+            return sarr([one(m) for m in self.M])
+        return sarr(one(self.M))
 
     def __getattr__(self, nm):
         raise Unsupported(f"Rotation model: {nm} not modelled")
@@ -56,6 +138,14 @@ def rotation_matrix_terms(q):
     return [[(w * w + x * x - y * y - z * z) / n, 2 * (x * y - z * w) / n, 2 * (x * z + y * w) / n],
             [2 * (x * y + z * w) / n, (w * w - x * x + y * y - z * z) / n, 2 * (y * z - x * w) / n],
             [2 * (x * z - y * w) / n, 2 * (y * z + x * w) / n, (w * w - x * x - y * y + z * z) / n]]
+
+
+def rotation_matrix_terms_unit(q):
+    """rotation matrix of a UNIT quaternion (x, y, z, w), without the normalising division"""
+    x, y, z, w = q
+    return [[1 - 2 * (y * y + z * z), 2 * (x * y - z * w), 2 * (x * z + y * w)],
+            [2 * (x * y + z * w), 1 - 2 * (x * x + z * z), 2 * (y * z - x * w)],
+            [2 * (x * z - y * w), 2 * (y * z + x * w), 1 - 2 * (x * x + y * y)]]
 
 
 class FAtoms:
@@ -342,6 +432,17 @@ def models_selftest(seed=0, rounds=5):
             assert np.allclose(Rm, Fm, atol=1e-12), ("Rotation.from_quat.as_matrix", Rm, Fm); n += 1
             qs = rng.normal(size=(3, 4))
             assert np.allclose(Rotation.from_quat(qs).as_matrix(), np.asarray(FRot.from_quat(qs).as_matrix(), dtype=float), atol=1e-12); n += 1
+            # the facts the matrix-side model states about scipy: magnitude = arccos((trace-1)/2); from_matrix(M).as_quat() is a unit
+            # quaternion x with M(x) = M whose component of largest magnitude is positive; Rotation(q).as_quat() = q/|q| (sign kept)
+            Ms = Rotation.from_quat(qs).as_matrix()
+            assert np.allclose(Rotation.from_matrix(Ms).magnitude(), np.arccos(np.clip((np.trace(Ms, axis1=1, axis2=2) - 1) / 2, -1, 1)), atol=1e-9); n += 1
+            xq = Rotation.from_matrix(Ms).as_quat()
+            for xrow, Mrow in zip(xq, Ms):
+                assert abs(np.linalg.norm(xrow) - 1) < 1e-12 and np.allclose(np.array(rotation_matrix_terms_unit(list(xrow)), dtype=float), Mrow, atol=1e-12)
+                assert xrow[int(np.argmax(np.abs(xrow)))] > 0, ("sign rule of from_matrix().as_quat()", xrow)
+                n += 1
+            assert np.allclose(Rotation(qs).as_quat(), qs / np.linalg.norm(qs, axis=1)[:, None], atol=1e-12); n += 1
+            assert np.allclose(np.asarray(FRot(np.array(qs, dtype=object)).as_quat(), dtype=float), qs / np.linalg.norm(qs, axis=1)[:, None], atol=1e-12); n += 1
             ru1, ru2 = real_universe(p1, m1, [f"A{i}" for i in range(k1)]), real_universe(p2, m2, [f"B{i}" for i in range(k2)])
             fu1, fu2 = FUniverse(p1, m1, [f"A{i}" for i in range(k1)]), FUniverse(p2, m2, [f"B{i}" for i in range(k2)])
             assert np.allclose(ru2.atoms.center_of_mass(), np.asarray(fu2.atoms.center_of_mass(), dtype=float), atol=1e-5); n += 1
